@@ -465,7 +465,7 @@ impl<R: Read, TSpec> TagIterator<R, TSpec>
                     });
 
                     if self.tag_ids_to_buffer.contains(&tag_id) {
-                        self.buffer_master(tag_id);
+                        self.buffer_master(tag_id, next_tag.tag_start);
                         return;
                     }
                 }
@@ -479,8 +479,7 @@ impl<R: Read, TSpec> TagIterator<R, TSpec>
         }
     }
 
-    fn buffer_master(&mut self, tag_id: u64) {
-        let tag_start = self.current_offset();
+    fn buffer_master(&mut self, tag_id: u64, tag_start: usize) {
         let pre_queue_len = self.emission_queue.len();
 
         let mut position = pre_queue_len;
